@@ -327,6 +327,16 @@ func txUpdateAttrs(tx *bolt.Tx, id uint64, m map[string]interface{}) (map[string
 		}
 	}
 
+	// No attributes left: drop the record, so that an id without attributes
+	// neither enters its block's checksum nor is listed in the block's data
+	// (a store that never saw the id reports the same block).
+	if len(attr) == 0 {
+		if err := tx.Bucket([]byte("attrs")).Delete(u64tob(id)); err != nil {
+			return nil, errors.Wrap(err, "deleting attrs")
+		}
+		return attr, nil
+	}
+
 	// Marshal and save new values.
 	buf, err := pilosa.EncodeAttrs(attr)
 	if err != nil {
